@@ -252,6 +252,8 @@ def _rigid(t):
         items = []
 
         def gather(x):
+            if x[0] == "Power" and x[2] == ("Const", 1):
+                return gather(x[1])         # u**1 is written as u
             if x[0] == name:
                 kids = x[1] if len(x) == 2 and isinstance(x[1], tuple) and (
                     not x[1] or isinstance(x[1][0], tuple)) else x[1:]
